@@ -493,7 +493,9 @@ func (c *UDPConn) WriteToUDP(b []byte, addr *UDPAddr) (int, error) {
 	if addr == nil {
 		return 0, opErr("write", c.network, errors.New("missing address"))
 	}
-	return c.send(b, addr)
+	n, err := c.send(b, addr)
+	rt.StallPoint()
+	return n, err
 }
 
 //go:norace
@@ -522,7 +524,9 @@ func (c *UDPConn) Write(b []byte) (int, error) {
 	if c.remote == nil {
 		return 0, opErr("write", c.network, errors.New("destination address required"))
 	}
-	return c.send(b, c.remote)
+	n, err := c.send(b, c.remote)
+	rt.StallPoint()
+	return n, err
 }
 
 //go:norace
@@ -828,6 +832,7 @@ func (c *StreamConn) Write(b []byte) (int, error) {
 	c.writing = true
 	n, err := c.write(b)
 	c.writing = false
+	rt.StallPoint()
 	return n, err
 }
 
